@@ -3,6 +3,7 @@ package props
 // C05 — relation targets: last assigned target, one relation per entity, alive-or-zero.
 
 import (
+	"strings"
 	"testing"
 
 	"verifharness/core"
@@ -64,6 +65,12 @@ func observeC05(tr *tracker, op *core.Op) {
 	}
 }
 
+func c05Mix() core.Mix {
+	m := relMixWithReset()
+	m[core.OpLockedRegistration] = 1
+	return m
+}
+
 func TestC05(t *testing.T) {
 	runSimProp(t, &simProp{
 		ID: "C05",
@@ -74,8 +81,13 @@ func TestC05(t *testing.T) {
 			CheckRelQueries: true,
 
 			RelQueriesRegistered: true,
+			// what counts as a relation component is fixed by the type (Relation embedded first): a
+			// plain type must not be usable in relation calls, whatever happened to the registry before
+			OwnedIf: func(s *core.Sim, f *core.Finding) bool {
+				return f.Cat == core.CatIllegal && strings.Contains(f.Msg, "relation call naming a plain component")
+			},
 		},
-		Mix:      relMixWithReset(),
+		Mix:      c05Mix(),
 		MaxPlain: 4, MinRel: 1, MaxRel: 3,
 		Setup: func(rt *rapid.T, sim *core.Sim, g *core.Gen) {
 			g.Illegal = []string{core.IllDeadTarget, core.IllDeadTarget, core.IllSecondRel}
